@@ -74,6 +74,7 @@ def convert(tb, hook_events, sid, cfg, kind, stats, mon=True):
     cur_idx = None
     pending_frame = None      # (idx, asserted ids)
     gives = {}                # frame id -> roots (accumulated over re-processing of the frame)
+    inserted = {}             # frame id -> formulas as asserted (before ITE elimination), None where unreadable
     idx2id = {}
     def flush_frame():
         nonlocal pending_frame
@@ -144,10 +145,22 @@ def convert(tb, hook_events, sid, cfg, kind, stats, mon=True):
                 stats["farkas"] = stats.get("farkas", 0) + 1
                 out.append({"e": "farkas", "lits": lits, "coefs": [{"n": c.numerator, "d": c.denominator} for c in coefs],
                             "mon": bool(ok)})
+            elif e == "insert":
+                if "t" in ev:
+                    try:
+                        inserted.setdefault(ev["fid"], []).append(rd.read(ev["t"]))
+                    except SmtError:
+                        inserted.setdefault(ev["fid"], []).append(None)
+                        raise
             elif e == "frame":
                 flush_frame()
                 cur_idx = ev["idx"]
                 asserted = [rd.read(a) for a in ev["asserted"]]
+                orig = inserted.get(ev["id"], [])
+                if len(orig) == len(asserted) and None not in orig:
+                    # the frame's formulas as the user asserted them: ITE elimination is inside the checked window
+                    asserted = list(orig)
+                    stats["frames_orig"] = stats.get("frames_orig", 0) + 1
                 for j in [j for j in idx2id if j > cur_idx]:
                     del idx2id[j]
                 idx2id[cur_idx] = ev["id"]
